@@ -37,6 +37,18 @@ WRITE_METHODS = ('write', 'truncate')
 
 
 def check(ctx, rep):
+    # every line number from 0 to 65529 can be typed: the reader takes a fifth digit while the first four are at most 6552
+    # (10*6552 + 9 = 65529), and not beyond (65530 and up are not line numbers)
+    rd_ = ctx.fn('pcbasic/basic/converter/tokeniser.py:PlainTextStream.read_line_number')
+    cut = None
+    for c in own_nodes(rd_):
+        if isinstance(c, ast.If) and isinstance(c.test, ast.Compare) and norm(c.test.left) == 'int(word)' and len(c.test.ops) == 1 \
+                and isinstance(c.test.ops[0], (ast.Gt, ast.GtE)) and any(isinstance(b, ast.Break) for b in c.body):
+            k = ctx.fold(c.test.comparators[0])
+            if isinstance(k, int):
+                cut = k if isinstance(c.test.ops[0], ast.Gt) else k - 1
+    rep.ob('numbers.reader-reaches-65529', 'read_line_number reads a fifth digit exactly while the number so far is <= 6552', cut == 6552,
+           'cut-off %s: the largest number that can be read is %s, not 65529' % (cut, None if cut is None else 10 * cut + 9), ctx.where(rd_))
     from . import c15, _share
     _share.share(ctx, rep, c15, ('ascii.',), 'MERGE / ASCII LOAD read the whole file: an empty line is not the end of the file')
     w = ctx.wiring
@@ -218,6 +230,8 @@ def variants(ctx):
         return lambda tree: f(mu.find_def(tree, 'Program.' + fname))
 
     return [
+        Va('line-numbers-65520-and-up-unreadable', 'break', 'pcbasic/basic/converter/tokeniser.py',
+           lambda tree: mu.replace_expr(mu.find_def(tree, 'PlainTextStream.read_line_number'), mu.text_is('int(word) > 6552'), 'int(word) >= 6552'), expect='numbers.reader-reaches-65529'),
         Va('delete-forgets-dict', 'break', PROGRAM,
            in_fn('delete', lambda fn: mu.remove_stmt(fn, mu.stmt_has('self.update_line_dict', ast.Expr))), expect='pairing'),
         Va('store-line-registers-before-shift', 'break', PROGRAM, in_fn('store_line', _register_first), expect='pairing.register'),
